@@ -307,6 +307,7 @@ package url
 //@ func (*parser).handleError
 //@   requires p != nil && u != nil
 //@   modifies u.validationErrors, u.validationErrors[..]
+//@   ensures result != nil ==> errCause(result) == nil
 //@   ensures arr(u.validationErrors) == old(arr(u.validationErrors)) || fresh(u.validationErrors)
 //@   ensures (result != nil) == (failure || p.opts.failOnValidationError)   [C15]
 //@   ensures result != nil ==> fresh(result) && isVE(result) && errType(result) == errorType && errFailure(result) == failure   [C15]
@@ -317,6 +318,7 @@ package url
 //@ func (*parser).handleErrorWithDescription
 //@   requires p != nil && u != nil
 //@   modifies u.validationErrors, u.validationErrors[..]
+//@   ensures result != nil ==> errCause(result) == nil
 //@   ensures arr(u.validationErrors) == old(arr(u.validationErrors)) || fresh(u.validationErrors)
 //@   ensures (result != nil) == (failure || p.opts.failOnValidationError)   [C15]
 //@   ensures result != nil ==> fresh(result) && isVE(result) && errType(result) == errorType && errFailure(result) == failure   [C15]
@@ -327,6 +329,7 @@ package url
 //@ func (*parser).handleWrappedError
 //@   requires p != nil && u != nil
 //@   modifies u.validationErrors, u.validationErrors[..]
+//@   ensures result != nil ==> errCause(result) == cause
 //@   ensures arr(u.validationErrors) == old(arr(u.validationErrors)) || fresh(u.validationErrors)
 //@   ensures (result != nil) == (failure || p.opts.failOnValidationError)   [C15]
 //@   ensures result != nil ==> fresh(result) && isVE(result) && errType(result) == errorType && errFailure(result) == failure   [C15]
@@ -368,6 +371,11 @@ package url
 //@   requires cur(i) && length >= 1 && i.pointer - length >= -1
 //@   modifies i.pointer, i.eof
 //@   ensures cur(i) && i.pointer == old(i.pointer) - length && !i.eof
+
+//@ func (*inputString).getCurrentAsByte
+//@   requires i != nil
+//@   modifies i.eof
+//@   loop 1 invariant 0 <= j && j <= $i
 
 //@ func (*inputString).remainingFromPointer
 //@   requires cur(i) && (i.eof || i.pointer >= 0)
@@ -429,7 +437,8 @@ package url
 //@   ensures p != nil ==> (forall k int :: 0 <= k && k < len(p.p) ==> result.p[k] == p.p[k])   [C13]
 //@ func (*path).String
 //@   requires p != nil && (p.opaque ==> len(p.p) >= 1)
-//@   ensures p.opaque ==> result == p.p[0]
+//@   ensures result == pathStr(p)   [C04]
+//@   loop 1 invariant output == specJoin(content(p.p), off(p.p), $i)
 
 // ---------------------------------------------------------------------------------------------------------------
 // parser.go: helpers
@@ -514,6 +523,9 @@ package url
 //@   requires okOpts(p) && okOpts(parser) && u != nil
 //@   modifies u.validationErrors, u.validationErrors[..], u.isIPv4, u.isIPv6
 //@   ensures arr(u.validationErrors) == old(arr(u.validationErrors)) || fresh(u.validationErrors)
+//@   loop 1 modifies u.validationErrors, u.validationErrors[..]
+//@   loop 1 invariant arr(u.validationErrors) == old(arr(u.validationErrors)) || fresh(u.validationErrors)
+//@   loop 1 invariant arr(u.validationErrors) == pre(arr(u.validationErrors)) || freshL(u.validationErrors)
 
 // ---------------------------------------------------------------------------------------------------------------
 // url.go: Clone
@@ -568,6 +580,13 @@ package url
 //@   ensures (url == nil && result1 == nil) ==> (result0 != nil && fresh(result0) && wf(result0))   [C02,C04]
 //@   ensures url != nil ==> wf(url)   [C02,C04]
 //@   ensures url != nil ==> (result0 == url || result0 == nil)
+//@   ensures (url == nil && result1 == nil) ==> allFresh(result0)   [C13]
+//@   ensures url != nil ==> keptArrays(url)
+//@   ensures (url != nil && stateOverride == StateFragment) ==> sameButFragment(url)   [C05]
+//@   ensures (url != nil && stateOverride == StateQuery) ==> sameButQuery(url)   [C05]
+//@   ensures (url != nil && stateOverride == StatePort) ==> sameButPort(url)   [C05]
+//@   ensures url != nil ==> url.searchParams == old(url.searchParams)   [C12]
+//@   ensures (url != nil && stateOverride == StateQuery) ==> url.query != nil
 //@   loop 1 modifies url.*, url.path.*, url.path.p[..], url.validationErrors[..], base.path.*, base.path.p[..], input.pointer, input.eof, bufv(buffer)
 //@   loop 1 invariant url != nil && url == pre(url) && url.parser == p
 //@   loop 1 invariant old(url) == nil ==> fresh(url)
@@ -585,6 +604,10 @@ package url
 //@   loop 1 invariant (stateOverridden && (state == StatePath || state == StatePathStart)) ==> !url.path.opaque
 //@   loop 1 invariant base != nil ==> (base.parser == baseUrl.parser && wfPort(base))
 //@   loop 1 invariant 1 <= state && state <= 21
+//@   loop 1 invariant stateOverride == StateQuery ==> (state == StateQuery && sameButQuery(url))
+//@   loop 1 invariant stateOverride == StateFragment ==> (state == StateFragment && sameButFragment(url))
+//@   loop 1 invariant stateOverride == StatePort ==> (state == StatePort && sameButPort(url))
+//@   loop 1 invariant old(url) != nil ==> url.searchParams == old(url.searchParams)
 //@   loop 1 invariant stateOverridden ==> (old(url) != nil && base == nil)
 //@   loop 1 invariant stateOverridden ==> (state == StateSchemeStart || state == StateScheme || state == StateHost || state == StateHostname
 //@            || state == StateFileHost || state == StatePort || state == StatePathStart || state == StatePath || state == StateQuery || state == StateFragment)
@@ -604,6 +627,10 @@ package url
 //@   loop 1 invariant wfPort(url)
 //@   loop 1 invariant wfSP(url)
 //@   loop 1 invariant wfDistinct(url)
+//@   loop 1 invariant old(url) == nil ==> ((url.host == nil || fresh(url.host)) && (url.port == nil || fresh(url.port))
+//@            && (url.query == nil || fresh(url.query)) && (url.fragment == nil || fresh(url.fragment)) && url.searchParams == nil)
+//@   loop 1 invariant base != nil ==> ((base.host == nil || fresh(base.host)) && (base.port == nil || fresh(base.port))
+//@            && (base.query == nil || fresh(base.query)) && (base.fragment == nil || fresh(base.fragment)))
 //@   loop 1 invariant url.host == nil || freshL(url.host) || (base != nil && url.host == base.host) || (old(url) != nil && url.host == pre(url.host))
 //@   loop 1 invariant url.port == nil || freshL(url.port) || (base != nil && url.port == base.port) || (old(url) != nil && url.port == pre(url.port))
 //@   loop 1 invariant url.query == nil || freshL(url.query) || (base != nil && url.query == base.query) || (old(url) != nil && url.query == pre(url.query))
@@ -613,3 +640,383 @@ package url
 //@   loop 2 invariant cur(bb) && fresh(bb) && bb != input && url != nil
 //@   loop 2 invariant bb.eof || c == bb.runes[bb.pointer]
 //@   loop 2 decreases bb.length - bb.pointer
+
+// ---------------------------------------------------------------------------------------------------------------
+// path.go / url.go: serializer and getters [C04, C19]
+// ---------------------------------------------------------------------------------------------------------------
+
+//@ func (*Url).Href
+//@   requires wf(u)
+//@   ensures result == hrefG(u, excludeFragment)   [C04]
+//@ func (*Url).String
+//@   requires wf(u)
+//@   ensures result == hrefG(u, false)   [C04]
+//@ func (*Url).Protocol
+//@   requires u != nil
+//@   ensures result == u.scheme + ":"   [C04,C19]
+//@ func (*Url).Scheme
+//@   requires u != nil
+//@   ensures result == u.scheme   [C19]
+//@ func (*Url).Username
+//@   requires u != nil
+//@   ensures result == u.username   [C04]
+//@ func (*Url).Password
+//@   requires u != nil
+//@   ensures result == u.password   [C04]
+//@ func (*Url).Host
+//@   requires u != nil
+//@   ensures result == hostStr(u)   [C04]
+//@ func (*Url).Hostname
+//@   requires u != nil
+//@   ensures result == (u.host == nil ? "" : *u.host)   [C04]
+//@ func (*Url).Port
+//@   requires u != nil
+//@   ensures result == (u.port == nil ? "" : *u.port)   [C04]
+//@ func (*Url).Pathname
+//@   requires wf0(u)
+//@   ensures result == pathStr(u.path)   [C04]
+//@ func (*Url).OpaquePath
+//@   requires wf0(u)
+//@   ensures result == u.path.opaque   [C19]
+//@ func (*Url).Search
+//@   requires u != nil
+//@   ensures result == searchStr(u)   [C04,C19]
+//@ func (*Url).Query
+//@   requires u != nil
+//@   ensures result == ((u.query == nil || len(*u.query) == 0) ? "" : *u.query)   [C19]
+//@ func (*Url).Hash
+//@   requires u != nil
+//@   ensures result == hashStr(u)   [C04,C19]
+//@ func (*Url).Fragment
+//@   requires u != nil
+//@   ensures result == ((u.fragment == nil || len(*u.fragment) == 0) ? "" : *u.fragment)   [C19]
+//@ func (*Url).ValidationErrors
+//@   requires u != nil
+//@ func (*Url).IsIPv4
+//@   requires u != nil
+//@   ensures result == u.isIPv4
+//@ func (*Url).IsIPv6
+//@   requires u != nil
+//@   ensures result == u.isIPv6
+//@ func (*Url).DecodedPort
+//@   requires wf(u)
+//@   ensures u.port != nil ==> result == specAtoiVal(*u.port)   [C19]
+//@   ensures u.port == nil && !special(u, u.scheme) ==> result == 0   [C19]
+//@   ensures u.port == nil && special(u, u.scheme) && specAtoiOK(defPort(u, u.scheme)) ==> result == specAtoiVal(defPort(u, u.scheme))   [C19]
+
+// ---------------------------------------------------------------------------------------------------------------
+// url.go: setters. Each keeps the record invariant; the wrapper-specific guards of the standard's API setters are
+// stated as "nothing changes" clauses [C04, C05].
+// ---------------------------------------------------------------------------------------------------------------
+
+//@ func (*Url).SetProtocol
+//@   requires wf(u)
+//@   modifies u.*, u.path.*, u.path.p[..], u.validationErrors[..]
+//@   ensures wf(u)   [C02,C04]
+//@   ensures keptArrays(u)
+//@ func (*Url).SetUsername
+//@   requires wf(u)
+//@   modifies u.username
+//@   ensures wf(u)   [C02,C04]
+//@   ensures (u.host == nil || *u.host == "" || u.scheme == "file") ==> u.username == old(u.username)   [C05]
+//@ func (*Url).SetPassword
+//@   requires wf(u)
+//@   modifies u.password
+//@   ensures wf(u)   [C02,C04]
+//@   ensures (u.host == nil || *u.host == "" || u.scheme == "file") ==> u.password == old(u.password)   [C05]
+//@ func (*Url).SetHost
+//@   requires wf(u)
+//@   modifies u.*, u.path.*, u.path.p[..], u.validationErrors[..]
+//@   ensures wf(u)   [C02,C04]
+//@   ensures keptArrays(u)
+//@   ensures old(u.path.opaque) ==> sameUrl(u)   [C05]
+//@ func (*Url).SetHostname
+//@   requires wf(u)
+//@   modifies u.*, u.path.*, u.path.p[..], u.validationErrors[..]
+//@   ensures wf(u)   [C02,C04]
+//@   ensures keptArrays(u)
+//@   ensures old(u.path.opaque) ==> sameUrl(u)   [C05]
+//@ func (*Url).SetPort
+//@   requires wf(u)
+//@   modifies u.*, u.path.*, u.path.p[..], u.validationErrors[..]
+//@   ensures wf(u)   [C02,C04]
+//@   ensures keptArrays(u)
+//@   ensures (old(u.host) == nil || old(*u.host) == "" || old(u.scheme) == "file") ==> sameUrl(u)   [C05]
+//@   ensures (!(old(u.host) == nil || old(*u.host) == "" || old(u.scheme) == "file") && port == "") ==> (u.port == nil && u.decodedPort == 0)   [C05]
+//@   ensures sameButPort(u)   [C05]
+//@ func (*Url).SetPathname
+//@   requires wf(u)
+//@   modifies u.*, u.path.*, u.path.p[..], u.validationErrors[..]
+//@   ensures wf(u)   [C02,C04]
+//@   ensures keptArrays(u)
+//@   ensures old(u.path.opaque) ==> sameUrl(u)   [C05]
+//@ func (*Url).SetHash
+//@   requires wf(u)
+//@   modifies u.*, u.path.*, u.path.p[..], u.validationErrors[..]
+//@   ensures wf(u)   [C02,C04]
+//@   ensures keptArrays(u)
+//@   ensures fragment == "" ==> u.fragment == nil   [C05]
+//@   ensures sameButFragment(u)   [C05]
+//@ func (*Url).SetSearch
+//@   requires wf(u)
+//@   modifies u.*, u.path.*, u.path.p[..], u.validationErrors[..], u.searchParams.params, u.searchParams.params[..]
+//@   ensures wf(u)   [C02,C04]
+//@   ensures keptArrays(u)
+//@   ensures query == "" ==> u.query == nil   [C05,C12]
+//@   ensures u.scheme == old(u.scheme) && u.username == old(u.username) && u.password == old(u.password) && u.host == old(u.host)
+//@           && u.port == old(u.port) && u.decodedPort == old(u.decodedPort) && u.path == old(u.path) && u.fragment == old(u.fragment)   [C05]
+//@   ensures query == "" && old(u.searchParams) != nil ==> (u.searchParams == old(u.searchParams) && len(u.searchParams.params) == 0)   [C12]
+//@   ensures old(u.searchParams) != nil ==> u.searchParams == old(u.searchParams)   [C12 same-handle]
+//@   ensures query != "" ==> u.searchParams != nil   [C12]
+
+//@ func (*Url).SearchParams
+//@   requires wf(u)
+//@   modifies u.searchParams
+//@   ensures wf(u) && result != nil && result == u.searchParams && result.url == u   [C12]
+//@   ensures old(u.searchParams) != nil ==> result == old(u.searchParams)   [C12]
+//@ func (*Url).newUrlSearchParams
+//@   requires wf(u)
+//@   modifies u.searchParams
+//@   ensures wf(u) && u.searchParams != nil && fresh(u.searchParams) && u.searchParams.url == u
+//@   ensures u.searchParams.params == nil || fresh(u.searchParams.params)
+//@ func (*Url).SetSearchParams
+//@   requires wf(u) && spOK(searchParams) && searchParams.url == u && searchParams != nil
+//@   modifies u.searchParams, u.query
+//@   ensures wf(u)
+//@ func (*Url).Parse
+//@   requires wf(u)
+//@   ensures result1 == nil ==> (result0 != nil && fresh(result0) && wf(result0) && allFresh(result0))   [C02,C13]
+
+//@ func (*parser).Parse
+//@   requires okOpts(p)
+//@   ensures result1 == nil ==> (result0 != nil && fresh(result0) && wf(result0) && allFresh(result0))   [C02,C13]
+//@ func (*parser).ParseRef
+//@   requires okOpts(p)
+//@   ensures result1 == nil ==> (result0 != nil && fresh(result0) && wf(result0) && allFresh(result0))   [C02,C13]
+//@ func (*parser).NewUrl
+//@   requires p != nil
+//@   ensures result != nil && fresh(result) && result.parser == p && result.path != nil
+//@ func NewParser
+//@   requires forall k int :: 0 <= k && k < len(opts) ==> opts[k] != nil
+//@   ensures result != nil && fresh(result)
+//@   ensures len(opts) == 0 ==> dfltOpts(result)   [C16]
+//@   loop 1 modifies p.opts.*
+//@   loop 1 invariant p != nil && fresh(p) && ($i == 0 ==> dfltOpts(p))
+
+// ---------------------------------------------------------------------------------------------------------------
+// searchparams.go. spOK(s): every cell of the list is non-nil. A list built by the package always has s.url set.
+// ---------------------------------------------------------------------------------------------------------------
+
+//@ func (*SearchParams).QueryEscape
+//@   requires s != nil && s.url != nil && s.url.parser != nil && okOpts(s.url.parser) && output != nil
+//@   modifies bufv(output)
+//@ func (*SearchParams).String
+//@   requires spOK(s) && s.url != nil && s.url.parser != nil && okOpts(s.url.parser)
+//@ func (*SearchParams).update
+//@   requires s != nil && (s.url != nil ==> (spOK(s) && wf(s.url) && s.url.searchParams == s))
+//@   modifies s.url.query
+//@   ensures s.url != nil ==> wf(s.url)
+//@   ensures s.url != nil ==> ((old(s.url.query) != nil) ==> s.url.query != nil)   [C12]
+//@ func (*SearchParams).init
+//@   requires s != nil && s.url != nil && s.url.parser != nil
+//@   modifies s.params, s.params[..]
+//@   ensures spOK(s)
+//@   ensures arr(s.params) == old(arr(s.params)) || fresh(s.params)
+//@   loop 1 modifies s.params, s.params[..]
+//@   loop 1 invariant spOK(s) && (arr(s.params) == old(arr(s.params)) || fresh(s.params)) && (arr(s.params) == pre(arr(s.params)) || freshL(s.params))
+//@ func (*SearchParams).Append
+//@   requires spOK(s) && (s.url != nil ==> (wf(s.url) && s.url.searchParams == s))
+//@   modifies s.params, s.params[..], s.url.query
+//@   ensures spOK(s) && (s.url != nil ==> wf(s.url))   [C02]
+//@   ensures len(s.params) == old(len(s.params)) + 1 && s.params[len(s.params) - 1].Name == name && s.params[len(s.params) - 1].Value == value   [C11]
+//@   ensures forall k int :: 0 <= k && k < old(len(s.params)) ==> s.params[k] == old(s.params[k])   [C11]
+//@ func (*SearchParams).Delete
+//@   requires spOK(s) && (s.url != nil ==> (wf(s.url) && s.url.searchParams == s))
+//@   modifies s.params, s.url.query
+//@   ensures spOK(s) && (s.url != nil ==> wf(s.url))   [C02]
+//@   ensures forall k int :: 0 <= k && k < len(s.params) ==> s.params[k].Name != name   [C11]
+//@   ensures len(s.params) <= old(len(s.params))   [C11]
+//@   loop 1 modifies nothing
+//@   loop 1 invariant len(result) <= $i && (result == nil || freshL(result))
+//@   loop 1 invariant forall k int :: 0 <= k && k < len(result) ==> (result[k] != nil && result[k].Name != name)
+//@ func (*SearchParams).Get
+//@   requires spOK(s)
+//@   ensures (forall k int :: 0 <= k && k < len(s.params) ==> s.params[k].Name != name) ==> result == ""   [C11]
+//@   ensures forall k int :: (0 <= k && k < len(s.params) && s.params[k].Name == name
+//@           && (forall j int :: 0 <= j && j < k ==> s.params[j].Name != name)) ==> result == s.params[k].Value   [C11]
+//@   loop 1 invariant forall j int :: 0 <= j && j < $i ==> s.params[j].Name != name
+//@ func (*SearchParams).Has
+//@   requires spOK(s)
+//@   ensures result == (exists k int :: 0 <= k && k < len(s.params) && s.params[k].Name == name)   [C11]
+//@   loop 1 invariant forall j int :: 0 <= j && j < $i ==> s.params[j].Name != name
+//@ func (*SearchParams).GetAll
+//@   requires spOK(s)
+//@   ensures forall k int :: 0 <= k && k < len(result) ==> (exists j int :: 0 <= j && j < len(s.params) && s.params[j].Name == name && result[k] == s.params[j].Value)   [C11]
+//@   loop 1 modifies nothing
+//@   loop 1 invariant (result == nil || freshL(result))
+//@   loop 1 invariant forall k int :: 0 <= k && k < len(result) ==> (exists j int :: 0 <= j && j < $i && s.params[j].Name == name && result[k] == s.params[j].Value)
+//@ func (*SearchParams).Set
+//@   requires spOK(s) && (s.url != nil ==> (wf(s.url) && s.url.searchParams == s))
+//@   modifies s.params, s.params[..], s.url.query, all(s.params).Value
+//@   ensures spOK(s) && (s.url != nil ==> wf(s.url))   [C02]
+//@   loop 1 modifies s.params[..], all(s.params).Value
+//@   loop 1 invariant s.params == pre(s.params)
+//@   loop 1 invariant arr(params) == arr(s.params) && off(params) == off(s.params) && cap(params) == cap(s.params) && 0 <= len(params) && len(params) <= $i
+//@   loop 1 invariant forall k int :: 0 <= k && k < len(params) ==> params[k] != nil
+//@   loop 1 invariant forall k int :: $i <= k && k < len(s.params) ==> (s.params[k] != nil && s.params[k] == pre(s.params[k]))
+//@ func (*SearchParams).Sort
+//@   requires spOK(s) && (s.url != nil ==> (wf(s.url) && s.url.searchParams == s))
+//@   modifies s.params[..], s.url.query
+//@   ensures spOK(s) && (s.url != nil ==> wf(s.url))   [C02]
+//@ func (*SearchParams).Sort$1
+//@   requires spOK(s) && 0 <= i && i < len(s.params) && 0 <= j && j < len(s.params)
+//@   ensures result == (s.params[i].Name < s.params[j].Name)   [C11]
+//@ func (*SearchParams).SortAbsolute
+//@   requires spOK(s) && (s.url != nil ==> (wf(s.url) && s.url.searchParams == s))
+//@   modifies s.params[..], s.url.query
+//@   ensures spOK(s) && (s.url != nil ==> wf(s.url))   [C02]
+//@ func (*SearchParams).SortAbsolute$1
+//@   requires spOK(s) && 0 <= i && i < len(s.params) && 0 <= j && j < len(s.params)
+//@   ensures result == (s.params[i].Name + s.params[i].Value < s.params[j].Name + s.params[j].Value)   [C11]
+//@ func (*SearchParams).Iterate
+//@   requires spOK(s) && (s.url != nil ==> (wf(s.url) && s.url.searchParams == s)) && f != nil
+//@   modifies s.url.query, all(s.params).Name, all(s.params).Value
+//@   ensures spOK(s) && (s.url != nil ==> wf(s.url))   [C02]
+//@   loop 1 modifies all(s.params).Name, all(s.params).Value
+//@   loop 1 invariant spOK(s) && s.params == pre(s.params)
+
+//@ global url.var.defaultParser: defaultParser != nil
+//@ global url.var.idnaProfile: idnaProfile != nil
+
+//@ func Parse
+//@   ensures result1 == nil ==> (result0 != nil && fresh(result0) && wf(result0) && allFresh(result0))   [C02,C13]
+//@ func ParseRef
+//@   ensures result1 == nil ==> (result0 != nil && fresh(result0) && wf(result0) && allFresh(result0))   [C02,C13]
+
+// ---------------------------------------------------------------------------------------------------------------
+// hostparser.go / parser.go: host parsing and the string codecs
+// ---------------------------------------------------------------------------------------------------------------
+
+//@ func (*parser).DecodePercentEncoded
+//@   requires p != nil
+//@   loop 1 invariant 0 <= i && i <= len(bytes) && len(bytes) == len(s) && fresh(bytes) && off(bytes) == 0
+//@   loop 1 decreases len(bytes) - i
+
+//@ func (*parser).PercentEncodeString
+//@   requires p != nil && setOK(tr)
+//@   loop 1 invariant buffer != nil && fresh(buffer)
+
+//@ func percentEncodeByte
+//@   requires setOK(tr)
+//@   ensures (tr != nil && !setHas(tr, b)) ==> result == utf8(b)   [C10]
+//@   ensures (tr == nil || setHas(tr, b)) ==> (len(result) == 3 && result[0] == '%' && result[1] == "0123456789ABCDEF"[b / 16] && result[2] == "0123456789ABCDEF"[b % 16])   [C10]
+
+//@ func percentEncodeString
+//@   requires setOK(tr)
+
+//@ func (*parser).ToASCII
+//@   requires p != nil
+
+//@ func (*parser).stringToUnicode
+//@   requires p != nil && p.opts.encodingOverride != nil
+//@   loop 1 modifies nothing
+//@   loop 1 invariant bb == nil || freshL(bb)
+
+//@ func containsOnlyASCIIOrMiscAndNoPunycode
+
+//@ func (*parser).parseOpaqueHost
+//@   requires p != nil && u != nil
+//@   modifies u.validationErrors, u.validationErrors[..]
+//@   ensures arr(u.validationErrors) == old(arr(u.validationErrors)) || fresh(u.validationErrors)
+//@   loop 1 modifies u.validationErrors, u.validationErrors[..]
+//@   loop 1 invariant arr(u.validationErrors) == old(arr(u.validationErrors)) || fresh(u.validationErrors)
+//@   loop 1 invariant arr(u.validationErrors) == pre(arr(u.validationErrors)) || freshL(u.validationErrors)
+
+//@ func (*parser).endsInANumber
+//@   requires p != nil && u != nil
+//@   modifies u.validationErrors, u.validationErrors[..]
+//@   ensures result == specEndsInANumber(input)   [C07]
+//@   ensures u.validationErrors == old(u.validationErrors)   [C15]
+//@   ensures forall k int :: 0 <= k && k < len(u.validationErrors) ==> u.validationErrors[k] == old(u.validationErrors[k])   [C15]
+
+//@ func (*parser).parseIPv4Number
+//@   requires p != nil && u != nil
+//@   modifies u.validationErrors, u.validationErrors[..]
+//@   ensures arr(u.validationErrors) == old(arr(u.validationErrors)) || fresh(u.validationErrors)
+//@   ensures input != "" ==> u.validationErrors == old(u.validationErrors)   [C15]
+//@   ensures input != "" ==> (forall k int :: 0 <= k && k < len(u.validationErrors) ==> u.validationErrors[k] == old(u.validationErrors[k]))   [C15]
+//@   ensures !specNumSyntax(input) ==> (err != nil && !errIsRange(err))   [C07 no-sign-no-other-character]
+//@   ensures (specNumSyntax(input) && specNumBody(input) == "") ==> (err == nil && number == 0)   [C07]
+//@   ensures (specNumSyntax(input) && specNumBody(input) != "" && specParseIntFits(specNumBody(input), specNumRadix(input))) ==> err == nil   [C07]
+//@   ensures (specNumSyntax(input) && specNumBody(input) != "" && specParseIntFits(specNumBody(input), specNumRadix(input)))
+//@           ==> number == specParseIntVal(specNumBody(input), specNumRadix(input))   [C07]
+//@   ensures err == nil ==> number >= 0   [C07]
+//@   ensures (specNumSyntax(input) && specNumBody(input) != "" && !specParseIntFits(specNumBody(input), specNumRadix(input))) ==> errIsRange(err)   [C07]
+//@   ensures err == nil ==> validationError == (specNumStart(input) > 0)   [C07]
+
+//@ func (*parser).parseIPv4
+//@   requires p != nil && u != nil
+//@   modifies u.validationErrors, u.validationErrors[..], u.isIPv4
+//@   ensures arr(u.validationErrors) == old(arr(u.validationErrors)) || fresh(u.validationErrors)
+//@   ensures result1 == nil ==> (specPartsN(input) <= 4 && u.isIPv4)   [C07]
+//@   ensures result1 == nil ==> (forall k int :: 0 <= k && k < specPartsN(input) ==> specNumSyntax(specSplitPart(input, ".", k)))   [C07]
+//@   loop 1 modifies u.validationErrors, u.validationErrors[..]
+//@   loop 1 invariant len(numbers) == $i && (numbers == nil || freshL(numbers)) && len(parts) == specPartsN(input) && len(parts) <= 4 && len(parts) >= 1
+//@   loop 1 invariant forall k int :: 0 <= k && k < len(parts) ==> parts[k] == specSplitPart(input, ".", k)
+//@   loop 1 invariant forall k int :: 0 <= k && k < $i ==> (specNumSyntax(parts[k]) && numbers[k] >= 0)
+//@   loop 1 invariant arr(u.validationErrors) == old(arr(u.validationErrors)) || fresh(u.validationErrors)
+//@   loop 1 invariant arr(u.validationErrors) == pre(arr(u.validationErrors)) || freshL(u.validationErrors)
+//@   loop 2 modifies u.validationErrors, u.validationErrors[..]
+//@   loop 2 invariant arr(u.validationErrors) == old(arr(u.validationErrors)) || fresh(u.validationErrors)
+//@   loop 2 invariant arr(u.validationErrors) == pre(arr(u.validationErrors)) || freshL(u.validationErrors)
+//@   loop 3 modifies u.validationErrors, u.validationErrors[..]
+//@   loop 3 invariant arr(u.validationErrors) == old(arr(u.validationErrors)) || fresh(u.validationErrors)
+//@   loop 3 invariant arr(u.validationErrors) == pre(arr(u.validationErrors)) || freshL(u.validationErrors)
+//@   loop 3 invariant forall k int :: 0 <= k && k < $i ==> numbers[k] <= 255
+//@   loop 4 modifies nothing
+//@   loop 4 invariant 0 <= ipv4 && ipv4 <= 4294967295
+
+//@ func (*parser).parseIPv6
+//@   requires p != nil && u != nil && cur(input) && !input.eof && input.pointer == -1
+//@   modifies u.validationErrors, u.validationErrors[..], u.isIPv6, input.pointer, input.eof
+//@   ensures arr(u.validationErrors) == old(arr(u.validationErrors)) || fresh(u.validationErrors)
+//@   ensures result1 == nil ==> u.isIPv6   [C08]
+//@   loop 1 modifies u.validationErrors, u.validationErrors[..], input.pointer, input.eof, address[..]
+//@   loop 1 invariant cur(input) && address != nil && fresh(address) && 0 <= pieceIdx && pieceIdx <= 8 && -1 <= compress && compress <= pieceIdx
+//@   loop 1 invariant input.pointer >= 0 && (input.eof || c == input.runes[input.pointer]) && (input.eof ==> c == 0xFFFD)
+//@   loop 1 invariant arr(u.validationErrors) == old(arr(u.validationErrors)) || fresh(u.validationErrors)
+//@   loop 1 invariant arr(u.validationErrors) == pre(arr(u.validationErrors)) || freshL(u.validationErrors)
+//@   loop 1 decreases input.length - input.pointer
+//@   loop 2 modifies input.pointer, input.eof
+//@   loop 2 invariant cur(input) && 0 <= length && length <= 4 && 0 <= value && value < 65536 && (length == 0 ==> (value == 0 && !input.eof))
+//@   loop 2 invariant (length == 1 ==> value < 16) && (length == 2 ==> value < 256) && (length == 3 ==> value < 4096)
+//@   loop 2 invariant input.pointer == pre(input.pointer) + length && input.pointer >= 0
+//@   loop 2 invariant (input.eof || c == input.runes[input.pointer]) && (input.eof ==> c == 0xFFFD)
+//@   loop 2 decreases 4 - length
+//@   loop 3 modifies u.validationErrors, u.validationErrors[..], input.pointer, input.eof, address[..]
+//@   loop 3 invariant cur(input) && address != nil && fresh(address) && 0 <= numbersSeen && numbersSeen <= 4 && 0 <= pieceIdx && pieceIdx <= 8
+//@   loop 3 invariant (numbersSeen < 2 ==> pieceIdx <= 6) && (numbersSeen < 4 ==> pieceIdx <= 7) && -1 <= compress && compress <= pieceIdx
+//@   loop 3 invariant input.pointer >= 0 && (input.eof || c == input.runes[input.pointer]) && (input.eof ==> c == 0xFFFD)
+//@   loop 3 invariant arr(u.validationErrors) == old(arr(u.validationErrors)) || fresh(u.validationErrors)
+//@   loop 3 invariant arr(u.validationErrors) == pre(arr(u.validationErrors)) || freshL(u.validationErrors)
+//@   loop 3 decreases input.length - input.pointer
+//@   loop 4 modifies u.validationErrors, u.validationErrors[..], input.pointer, input.eof
+//@   loop 4 invariant cur(input) && -1 <= ipv4Piece && ipv4Piece <= 255 && (ipv4Piece >= 0 || (specIsDigit(c) && !input.eof))
+//@   loop 4 invariant input.pointer >= pre(input.pointer) && (ipv4Piece >= 0 ==> input.pointer > pre(input.pointer))
+//@   loop 4 invariant input.pointer >= 0 && (input.eof || c == input.runes[input.pointer]) && (input.eof ==> c == 0xFFFD)
+//@   loop 4 invariant arr(u.validationErrors) == old(arr(u.validationErrors)) || fresh(u.validationErrors)
+//@   loop 4 invariant arr(u.validationErrors) == pre(arr(u.validationErrors)) || freshL(u.validationErrors)
+//@   loop 4 decreases input.length - input.pointer
+//@   loop 5 modifies address[..]
+//@   loop 5 invariant address != nil && fresh(address) && 0 <= pieceIdx && pieceIdx <= 7 && 0 <= swaps && 0 <= compress && compress + swaps <= 8 && swaps <= pieceIdx + 1
+//@   loop 5 decreases swaps
+
+//@ func (*IPv6Addr).String
+//@   requires address != nil
+//@   loop 1 invariant 0 <= pieceIdx && pieceIdx <= 8 && 0 <= currentLength && currentLength <= pieceIdx && 0 <= compressLength && compressLength <= 8
+//@   loop 1 decreases 8 - pieceIdx
+//@   loop 2 invariant 0 <= pieceIdx && pieceIdx <= 8
+//@   loop 2 decreases 8 - pieceIdx
+
+//@ func (IPv4Addr).String
+//@   ensures result == specIPv4Ser(address)   [C07]
